@@ -907,6 +907,8 @@ def build_streams(chk, names, sizes):
         if m != n:
             lines.append(f'charset search {hexchars(m)}'); outs.append(impl_search(m))
     fam['names'] = (lines, outs)
+    # the twin: the same lines through the functions REGENERATED from lib/encodings.py (Generated.EncodingsFn; ops g<op>)
+    fam['names-generated'] = ([l.replace('charset ', 'charset g', 1) for l in lines], list(outs))
     # ---- the registry: the model of `codecs.lookup(name).name` (C normalisation, alias table, encodings.<module>, the tool's search
     # function) against the running interpreter, on the name pool and on punctuation / case / dot variants of it
     lines, outs = [], []
@@ -1007,6 +1009,7 @@ def build_streams(chk, names, sizes):
         for data in LOADER_CONTENTS + [d for cc, d in CORPUS_BYTES if cc == 'LOADER']:
             lines.append(f'charset loader {len(data)} {raw_decode(data, n)}'); outs.append(impl_loader(data, n))
     fam['loader'] = (lines, outs)
+    fam['loader-generated'] = ([l.replace('charset ', 'charset g', 1) for l in lines], list(outs))
     # ---- EUC-TW: the structural model against the tool's codec; the CNS tables are asked of iconv unit by unit
     lines, outs = [], []
     if R.ok and R.available('UTF-32LE', 'EUC-TW'):
